@@ -35,3 +35,54 @@ package exec
 //@   loop 2 invariant sp5: sepArr((*schedQ).arr, (*machQ).arr)
 //@   loop 2 invariant qa: ((*schedQ).arr == old((*schedQ).arr) && (*schedQ).off == old((*schedQ).off) && cap(*schedQ) == old(cap(*schedQ)) || fresh((*schedQ).arr)) && ((*machQ).arr == old((*machQ).arr) && (*machQ).off == old((*machQ).off) && cap(*machQ) == old(cap(*machQ)) || fresh((*machQ).arr))
 //@   loop 2 invariant fr: implies(shelvedRequests != nil, fresh(shelvedRequests)) && implies(shelvedMachines != nil, fresh(shelvedMachines))
+
+// ---- C15: remote reads resume without gaps or repeats ----
+
+//@ spec func retryInv(r *retryReader) bool = r.bytes >= 0 && r.retries >= 0 && r.openerAt != nil && (r.reader == nil || (r.reader.rsrc == r.openerAt && r.reader.rpos == r.bytes))
+
+//@ func exec.(*retryReader).Read (data) (n, err)
+//@   requires r != nil && retryInv(r)
+//@   ensures  inv1: r.bytes >= 0 && r.retries >= 0 && r.openerAt != nil
+//@   ensures  inv2: r.reader == nil || r.reader.rsrc == r.openerAt
+//@   ensures  inv3: r.reader == nil || r.reader.rpos == r.bytes
+//@   ensures  inv: retryInv(r)
+//@   ensures  delivered: implies(err == nil || err == io.EOF, 0 <= n && n <= len(data) && r.bytes == old(r.bytes) + n
+//@              && forall(i, 0, n, data[i] == streamAt(r.openerAt, old(r.bytes) + i)))
+//@   ensures  failed: implies(err != nil && err != io.EOF, n == 0 && r.bytes == old(r.bytes))
+//@   ensures  sticky: implies(old(r.err) != nil, n == 0 && err == old(r.err) && r.bytes == old(r.bytes))
+//@   ensures  same-source: r.openerAt == old(r.openerAt)
+//@   modifies r.err, r.reader, r.bytes, r.retries, data[0:len(data)], Reader.rsrc, Reader.rpos
+//@   loop 1 invariant retryInv(r) && r.bytes == old(r.bytes) && r.openerAt == old(r.openerAt) && r.err == old(r.err)
+
+// ---- C15: task stores are commit-atomic ----
+
+//@ func exec.closeFile (ctx, f) (err)
+//@   requires f != nil
+//@   ensures  closed-once: f.fcloses == old(f.fcloses) + 1 && f.fcloseErr == err && f.fdiscards == old(f.fdiscards)
+//@   modifies f.fcloses, f.fcloseErr
+
+//@ func exec.(*fileWriter).Commit (ctx, count) (err)
+//@   requires w != nil && w.File != nil && w.Writer != nil
+//@   ensures  trailer-written: w.Writer.wcalls == old(w.Writer.wcalls) + 1
+//@   ensures  write-error-reported: implies(w.Writer.wlastErr != nil, err != nil)
+//@   ensures  close-error-reported: implies(w.File.fcloses > old(w.File.fcloses), err == w.File.fcloseErr)
+//@   ensures  success-means-committed: implies(err == nil && w.Writer.wlastErr == nil, w.File.fcloses == old(w.File.fcloses) + 1 && w.File.fcloseErr == nil)
+//@   ensures  no-close-after-failed-write: implies(w.Writer.wlastErr != nil, w.File.fcloses == old(w.File.fcloses))
+//@   modifies w.Writer.wcalls, w.Writer.wlastErr, w.File.fcloses, w.File.fcloseErr, elems(byte)
+
+//@ func exec.(*fileIOCloser).Close
+//@   requires f != nil && f.file != nil
+//@   ensures  f.file.fcloses == old(f.file.fcloses) + 1
+//@   modifies f.file.fcloses, f.file.fcloseErr
+
+//@ func exec.(*fileStore).Open (ctx, task, partition, offset) (rc, err)
+//@   requires s != nil && offset >= 0
+//@   ensures  err-or-reader: (err == nil) == (rc != nil)
+//@   ensures  typed: implies(err == nil, hastype(rc, *fileIOCloser) && unbox(rc, *fileIOCloser) != nil && unbox(rc, *fileIOCloser).file != nil)
+//@   ensures  limited: implies(err == nil, unbox(rc, *fileIOCloser).Reader.rlimit == unbox(rc, *fileIOCloser).file.fsize - 8 - offset)
+//@   ensures  source: implies(err == nil, unbox(rc, *fileIOCloser).Reader.rsrc == unbox(rc, *fileIOCloser).file)
+//@   ensures  positioned: implies(err == nil, unbox(rc, *fileIOCloser).Reader.rpos == offset)
+//@   modifies File.fsize, File.fcloses, File.fdiscards, File.fcloseErr, Info.isize, Reader.rsrc, Reader.rpos, Reader.rlimit, Reader.seekErr
+
+//@ extern func exec.(*fileStore).path
+//@   modifies nothing
